@@ -1,7 +1,7 @@
 (* C02 -- Snapshot fidelity: a snapshot truthfully describes the paused frame. *)
 From Deep Require Import Base Config ConfigProofs Collector CollectorProofs Frames.
-From DeepGen Require Import PRender PFrames PChildren.
-From Deep Require Import PureSupport TieRender TieFrames TieNames.
+From DeepGen Require Import PRender PFrames PChildren PSelect.
+From Deep Require Import PureSupport TieRender TieFrames TieNames TieSelect.
 
 (* the stack frames are the real call stack, in order, one per frame, each carrying that frame's
    file, function, line and class of self *)
@@ -144,3 +144,13 @@ Theorem C02_the_code_names_elements_by_index :
   gen_process_list mk (Z.of_nat K) p el = map (fun ix => mk (print_nat (fst ix)) (snd ix) p) (number 0 (firstn K el)).
 Proof. intros N P. exact (@tie_process_list N P). Qed.
 Print Assumptions C02_the_code_names_elements_by_index.
+
+(* ---- tie by translation: SnapshotActionContext.should_collect_vars as it is in /repo/src NOW *)
+(* frame by frame the translated code selects exactly the frames the model selects for the action's frame_type text:
+   none for no_frame, all for all_frame, the paused frame only for any other text and when the argument is absent *)
+Theorem C02_the_code_selects_the_frames_of_the_model :
+  forall (cfg : TriggerTable.args) (n i : nat),
+  map (fun k => gen_should_collect_vars cfg (Z.of_nat k)) (seq i n) =
+  collect_flags_from (frame_type_of_text (alookup TriggerTable.s_frame_type cfg)) i n.
+Proof. exact code_selection. Qed.
+Print Assumptions C02_the_code_selects_the_frames_of_the_model.
